@@ -260,7 +260,7 @@ theorem esStep_clean (n i : Nat) (st : EsState) (p : Bytes × Bytes) (hp : Clean
   have g4 : (p.1 ++ 58 :: p.2).isEmpty = false := by simp
   have g5 := splitColon_append p.1 p.2 f5
   have g6 := valid_trim p.2 hp.val_ok
-  simp only [esStep, hl, g1, g2, g3, g4, g5, f1, f2, f3, f4, g6, Bool.false_and,
+  simp only [esStep, esLine, hl, g1, g2, g3, g4, g5, f1, f2, f3, f4, g6, Bool.false_and,
     Bool.and_false, Bool.false_eq_true, if_false, Bool.not_false, Bool.true_and, beq_self_eq_true,
     Bool.not_true, if_true, bne_self_eq_false, List.append_nil, Bool.or_false, Bool.and_true]
 
@@ -283,7 +283,7 @@ theorem esLoop_clean (n : Nat) (ps : List (Bytes × Bytes)) (h : ∀ p ∈ ps, C
   | nil =>
     intro st i hi
     have hl : (i + 1 == n) = true := by simp at hi; simp; omega
-    simp [esLoop, esStep, hl, foldTr, lastKey]
+    simp [esLoop, esStep, esLine, hl, foldTr, lastKey]
   | cons p ps ih =>
     intro st i hi
     simp only [List.map_cons, List.cons_append, esLoop]
@@ -913,5 +913,314 @@ theorem block_clean (s : Bytes) (h : blockOK s = true) : (examineGRPCEndStream s
       rw [hs, hps]
       simp [joinCRLF, renderPairs, List.flatMap_map, List.append_assoc]
     rw [this, examine_renderPairs ps hclean]
+
+end ConfModel.WireChecks
+
+namespace ConfModel.WireChecks
+open ConfModel.WireChecksSpec
+open ConfModel.ServerTimeout (Bytes parseInt)
+
+/-! ### every malformation of the block is reported -/
+
+/-- what is already certain to be reported for the alternatives `alts` -/
+def sat (st : EsState) (alts : List EsFb) : Prop :=
+  (∃ f ∈ alts, f ∈ st.fb) ∨ (EsFb.obsFold ∈ alts ∧ st.obsLineFolds > 0) ∨
+  (EsFb.blankLines ∈ alts ∧ EsFb.extraBlankAtEnd ∈ alts ∧ st.blankLines > 0) ∨
+  (EsFb.lfOnly ∈ alts ∧ st.linesWithoutCR > 0)
+
+def le (a b : EsState) : Prop :=
+  (∀ f ∈ a.fb, f ∈ b.fb) ∧ a.obsLineFolds ≤ b.obsLineFolds ∧ a.blankLines ≤ b.blankLines ∧
+  a.linesWithoutCR ≤ b.linesWithoutCR
+
+theorem le_refl (a : EsState) : le a a := ⟨fun _ h => h, Nat.le_refl _, Nat.le_refl _, Nat.le_refl _⟩
+
+theorem le_trans {a b c : EsState} (h1 : le a b) (h2 : le b c) : le a c :=
+  ⟨fun f h => h2.1 f (h1.1 f h), Nat.le_trans h1.2.1 h2.2.1, Nat.le_trans h1.2.2.1 h2.2.2.1,
+    Nat.le_trans h1.2.2.2 h2.2.2.2⟩
+
+theorem sat_mono {a b : EsState} (h : le a b) (alts : List EsFb) (hs : sat a alts) : sat b alts := by
+  rcases hs with ⟨f, hf, hm⟩ | ⟨h1, h2⟩ | ⟨h1, h2, h3⟩ | ⟨h1, h2⟩
+  · exact Or.inl ⟨f, hf, h.1 f hm⟩
+  · exact Or.inr (Or.inl ⟨h1, Nat.lt_of_lt_of_le h2 h.2.1⟩)
+  · exact Or.inr (Or.inr (Or.inl ⟨h1, h2, Nat.lt_of_lt_of_le h3 h.2.2.1⟩))
+  · exact Or.inr (Or.inr (Or.inr ⟨h1, Nat.lt_of_lt_of_le h2 h.2.2.2⟩))
+
+theorem sat_finish (st : EsState) (alts : List EsFb) (hs : sat st alts) : ∃ f ∈ alts, f ∈ esFinish st := by
+  unfold esFinish
+  rcases hs with ⟨f, hf, hm⟩ | ⟨h1, h2⟩ | ⟨h1, h2, h3⟩ | ⟨h1, h2⟩
+  · exact ⟨f, hf, by simp [hm]⟩
+  · exact ⟨_, h1, by simp [h2]⟩
+  · by_cases hb : (st.blankLines == 1 && st.blankLineAtEnd) = true
+    · exact ⟨_, h2, by simp [h3, hb]⟩
+    · exact ⟨_, h1, by simp [h3, hb]⟩
+  · exact ⟨_, h1, by simp [h2]⟩
+
+end ConfModel.WireChecks
+
+namespace ConfModel.WireChecks
+open ConfModel.WireChecksSpec
+open ConfModel.ServerTimeout (Bytes parseInt)
+
+theorem esLine_le (n : Nat) (st : EsState) (i : Nat) (l : Bytes) : le st (esLine n st i l) := by
+  unfold esLine le
+  simp only []
+  repeat' split
+  all_goals (refine ⟨?_, ?_, ?_, ?_⟩ <;> simp <;> try omega)
+  all_goals (intro f hf; simp [hf])
+
+theorem esStep_le (n : Nat) (st : EsState) (i : Nat) (l : Bytes) : le st (esStep n st i l) := by
+  unfold esStep
+  simp only []
+  split
+  · exact ⟨fun _ h => h, Nat.le_refl _, Nat.le_refl _, Nat.le_refl _⟩
+  · refine le_trans ?_ (esLine_le _ _ _ _)
+    split
+    · exact ⟨fun _ h => h, Nat.le_refl _, Nat.le_refl _, Nat.le_succ _⟩
+    · exact le_refl _
+
+theorem esLoop_le (n : Nat) : ∀ (ls : List Bytes) (st : EsState) (i : Nat), le st (esLoop n st i ls) := by
+  intro ls
+  induction ls with
+  | nil => intro st i; exact le_refl _
+  | cons l t ih => intro st i; exact le_trans (esStep_le n st i l) (ih _ _)
+
+theorem splitColon_head (l : Bytes) :
+    ((splitColon l).1.head?.map isWS).getD false = (l.head?.map isWS).getD false := by
+  cases l with
+  | nil => rfl
+  | cons c cs =>
+    rw [splitColon]
+    by_cases h58 : (c.toNat == 58) = true
+    · have : isWS c = false := by
+        have : c.toNat = 58 := by simpa using h58
+        simp [isWS, this]
+      simp [h58, this]
+    · simp only [h58, Bool.false_eq_true, if_false]
+      cases splitColon cs with
+      | mk k v => simp
+
+theorem ws_head_invalid (k : Bytes) (h : (k.head?.map isWS).getD false = true) : validFieldName k = false := by
+  cases k with
+  | nil => simp at h
+  | cons c cs =>
+    have hc : isWS c = true := by simpa using h
+    have : isTchar c = false := by
+      cases ht : isTchar c with
+      | false => rfl
+      | true =>
+        have := tchar_facts c ht
+        simp [isWS] at hc; omega
+    simp [validFieldName, this]
+
+set_option maxRecDepth 100000 in
+theorem upper_facts : ∀ n : Fin 256, (toLowerByte (UInt8.ofNat n.val) = UInt8.ofNat n.val) = (isUpper (UInt8.ofNat n.val) = false) := by
+  decide
+
+theorem lower_eq_iff (k : Bytes) : (k != lowerASCII k) = k.any isUpper := by
+  induction k with
+  | nil => rfl
+  | cons c cs ih =>
+    have hc : (toLowerByte c = c) = (isUpper c = false) := by
+      have := upper_facts ⟨c.toNat, c.toNat_lt⟩
+      simpa [UInt8.ofNat_toNat] using this
+    simp only [lowerASCII, List.map_cons, List.any_cons] at *
+    cases hu : isUpper c with
+    | true =>
+      have : ¬ toLowerByte c = c := by rw [hc]; simp [hu]
+      have hne : ¬ c = toLowerByte c := fun h => this h.symm
+      simp [bne, hne]
+    | false =>
+      have : toLowerByte c = c := by rw [hc]; exact hu
+      rw [this]
+      simp only [Bool.false_or]
+      rw [← ih]
+      simp [bne]
+
+/-- the reports a non-final line forces, as recorded right after that line was processed -/
+theorem line_sat (n : Nat) (st : EsState) (i : Nat) (l : Bytes) :
+    ∀ alts ∈ mustFlagLine l, sat (esLine n st i l) alts := by
+  intro alts h
+  unfold mustFlagLine at h
+  unfold esLine
+  by_cases he : l.isEmpty = true
+  · simp only [he, if_true, List.mem_singleton] at h
+    subst h
+    simp only [he, if_true]
+    exact Or.inr (Or.inr (Or.inl ⟨by simp, by simp, by simp⟩))
+  · simp only [he, Bool.false_eq_true, if_false] at h ⊢
+    have hh := splitColon_head l
+    cases hs : splitColon l with
+    | mk key rest =>
+      rw [hs] at hh
+      simp only [] at hh
+      simp only [hs] at h ⊢
+      by_cases hw : (l.head?.map isWS).getD false = true
+      · -- the line starts with white space
+        simp only [hw, if_true, List.mem_singleton] at h
+        subst h
+        rw [hw] at hh
+        by_cases hf : (decide (i > st.blankLines) && (key.head?.map isWS).getD false) = true
+        · simp only [hf, if_true]
+          exact Or.inr (Or.inl ⟨by simp, by simp⟩)
+        · simp only [hf, Bool.false_eq_true, if_false]
+          cases rest with
+          | none => exact Or.inl ⟨.missingColon, by simp, by simp⟩
+          | some r =>
+            have := ws_head_invalid key hh
+            exact Or.inl ⟨.invalidName, by simp, by simp [this]⟩
+      · have hw' : (l.head?.map isWS).getD false = false := by simpa using hw
+        rw [hw'] at hh
+        simp only [hw', Bool.false_eq_true, if_false] at h
+        simp only [hh, Bool.and_false, Bool.false_eq_true, if_false]
+        cases rest with
+        | none =>
+          simp only [List.mem_singleton] at h; subst h
+          exact Or.inl ⟨.missingColon, by simp, by simp⟩
+        | some r =>
+          simp only [List.mem_append] at h
+          rcases h with (h | h) | h
+          · by_cases hv : (!(!key.isEmpty && key.all isTchar)) = true
+            · simp only [hv, if_true, List.mem_singleton] at h; subst h
+              have : validFieldName key = false := by
+                cases hvn : validFieldName key with
+                | false => rfl
+                | true => simp only [validFieldName] at hvn; rw [hvn] at hv; simp at hv
+              exact Or.inl ⟨.invalidName, by simp, by simp [this]⟩
+            · simp [hv] at h
+          · by_cases hv : (isASCII key && key.any isUpper) = true
+            · simp only [hv, if_true, List.mem_singleton] at h; subst h
+              have : (isASCII key && key != lowerASCII key) = true := by rw [lower_eq_iff]; exact hv
+              exact Or.inl ⟨.nonLowerKey, by simp, by simp [this]⟩
+            · simp [hv] at h
+          · by_cases hv : (!validFieldValue (trimWS r)) = true
+            · simp only [hv, if_true, List.mem_singleton] at h; subst h
+              exact Or.inl ⟨.invalidValue, by simp, by simp [hv]⟩
+            · simp [hv] at h
+
+end ConfModel.WireChecks
+
+namespace ConfModel.WireChecks
+open ConfModel.WireChecksSpec
+open ConfModel.ServerTimeout (Bytes parseInt)
+
+def stripCR (l : Bytes) : Bytes := if l.getLast? == some 13 then l.dropLast else l
+
+theorem esStep_nonlast (n : Nat) (st : EsState) (i : Nat) (l : Bytes) (hi : i + 1 < n) :
+    esStep n st i l =
+      esLine n (if l.getLast? == some 13 then st else { st with linesWithoutCR := st.linesWithoutCR + 1 })
+        i (stripCR l) := by
+  have hl : (i + 1 == n) = false := by simp; omega
+  unfold esStep stripCR
+  simp only [hl, Bool.false_and, Bool.false_eq_true, if_false, Bool.not_false, Bool.true_and]
+  cases l.getLast? == some 13 <;> simp
+
+theorem esLine_ends (n : Nat) (st : EsState) (i : Nat) (l : Bytes) :
+    (esLine n st i l).endsInCRLF = st.endsInCRLF := by
+  unfold esLine
+  simp only []
+  repeat' split
+  all_goals rfl
+
+theorem loop_sat (n : Nat) : ∀ (ls : List Bytes) (st : EsState) (i : Nat), i + ls.length = n →
+    ∀ l ∈ ls.dropLast, ∀ alts ∈ mustFlagLine (stripCR l), sat (esLoop n st i ls) alts := by
+  intro ls
+  induction ls with
+  | nil => intro st i _ l hl; simp at hl
+  | cons a t ih =>
+    intro st i hn l hl alts ha
+    cases t with
+    | nil => simp at hl
+    | cons b t' =>
+      have hi : i + 1 < n := by simp at hn; omega
+      rw [List.dropLast_cons₂] at hl
+      simp only [List.mem_cons] at hl
+      simp only [esLoop]
+      rcases hl with rfl | hl
+      · have h1 : sat (esStep n st i l) alts := by
+          rw [esStep_nonlast n st i l hi]; exact line_sat n _ i _ alts ha
+        exact sat_mono (esLoop_le n (b :: t') _ _) alts h1
+      · exact ih (esStep n st i a) (i + 1) (by simp at hn ⊢; omega) l (by simpa using hl) alts ha
+
+theorem loop_lf (n : Nat) : ∀ (ls : List Bytes) (st : EsState) (i : Nat), i + ls.length = n →
+    (∃ l ∈ ls.dropLast, (l.getLast? != some 13) = true) → (esLoop n st i ls).linesWithoutCR > 0 := by
+  intro ls
+  induction ls with
+  | nil => intro st i _ h; simp at h
+  | cons a t ih =>
+    intro st i hn h
+    cases t with
+    | nil => simp at h
+    | cons b t' =>
+      have hi : i + 1 < n := by simp at hn; omega
+      obtain ⟨l, hl, hcr⟩ := h
+      rw [List.dropLast_cons₂] at hl
+      simp only [List.mem_cons] at hl
+      simp only [esLoop]
+      rcases hl with rfl | hl
+      · have h1 : (esStep n st i l).linesWithoutCR > 0 := by
+          rw [esStep_nonlast n st i l hi]
+          have hcr' : (l.getLast? == some 13) = false := by simpa [bne] using hcr
+          have := (esLine_le n { st with linesWithoutCR := st.linesWithoutCR + 1 } i (stripCR l)).2.2.2
+          simp only [hcr', Bool.false_eq_true, if_false]
+          simp at this; omega
+        exact Nat.lt_of_lt_of_le h1 (esLoop_le n (b :: t') _ _).2.2.2
+      · exact ih (esStep n st i a) (i + 1) (by simp at hn ⊢; omega) ⟨l, by simpa using hl, hcr⟩
+
+theorem loop_ends (n : Nat) : ∀ (ls : List Bytes) (st : EsState) (i : Nat), i + ls.length = n →
+    st.endsInCRLF = false → (esLoop n st i ls).endsInCRLF = true → ls.getLast? = some [] := by
+  intro ls
+  induction ls with
+  | nil => intro st i _ h0 h1; simp [esLoop, h0] at h1
+  | cons a t ih =>
+    intro st i hn h0 h1
+    cases t with
+    | nil =>
+      simp only [esLoop] at h1
+      have hl : (i + 1 == n) = true := by simp at hn; simp; omega
+      unfold esStep at h1
+      simp only [hl, Bool.true_and] at h1
+      by_cases he : a.isEmpty = true
+      · have : a = [] := by simpa using he
+        simp [this]
+      · simp only [he, Bool.false_eq_true, if_false, Bool.not_true, Bool.false_and] at h1
+        rw [esLine_ends] at h1
+        simp [h0] at h1
+    | cons b t' =>
+      have hi : i + 1 < n := by simp at hn; omega
+      simp only [esLoop] at h1
+      have h0' : (esStep n st i a).endsInCRLF = false := by
+        rw [esStep_nonlast n st i a hi, esLine_ends]
+        split <;> simp [h0]
+      have := ih (esStep n st i a) (i + 1) (by simp at hn ⊢; omega) h0' h1
+      simpa using this
+
+/-- every malformation class the specification names for the block is reported by the model -/
+theorem block_flags (s : Bytes) :
+    ∀ alts ∈ mustFlag s, ∃ f ∈ alts, f ∈ (examineGRPCEndStream s).1 := by
+  intro alts h
+  simp only [mustFlag, List.mem_append, List.mem_flatMap] at h
+  unfold examineGRPCEndStream
+  simp only []
+  have hn : 0 + (splitLF s).length = (splitLF s).length := by simp
+  rcases h with h | ⟨l', hl', ha⟩
+  · by_cases hw : wrongLineEnding s = true
+    · simp only [hw, if_true, List.mem_singleton] at h
+      subst h
+      simp only [wrongLineEnding, Bool.or_eq_true, List.any_eq_true] at hw
+      rcases hw with ⟨l, hl, hcr⟩ | hlast
+      · have := loop_lf _ (splitLF s) {} 0 hn ⟨l, hl, hcr⟩
+        exact ⟨.lfOnly, by simp, by simp [esFinish, this]⟩
+      · have hne : (esLoop (splitLF s).length {} 0 (splitLF s)).endsInCRLF = false := by
+          cases he : (esLoop (splitLF s).length {} 0 (splitLF s)).endsInCRLF with
+          | false => rfl
+          | true =>
+            have := loop_ends _ (splitLF s) {} 0 hn rfl he
+            simp [this] at hlast
+        exact ⟨.noFinalCRLF, by simp, by simp [esFinish, hne]⟩
+    · simp [hw] at h
+  · simp only [terminatedLines, List.mem_map] at hl'
+    obtain ⟨l, hl, rfl⟩ := hl'
+    have := loop_sat _ (splitLF s) {} 0 hn l hl alts (by simpa [stripCR] using ha)
+    exact sat_finish _ alts this
 
 end ConfModel.WireChecks
